@@ -239,5 +239,11 @@ class BinSys:
         m.clear()
         m.update(m2)
 
+    def live_check(self, live):
+        if "C12" in self.props:
+            v = self._probe_same(live[0], live[1], "long_lived_object")
+            return [v] if v else []
+        return []
+
     def live_canon(self, live):
         return canon(snapshot(live[0]))
